@@ -396,7 +396,7 @@ def check(ctx):
     ctx.evaluations += len(pairs)
     for p, v in zip(pairs, verdicts):
         if v is not None:
-            ctx.fail('flagged-iff-differs', {'kind': p[0], 'msgid': p[1], 'msgstr': p[2]}, v)
+            ctx.fail('flagged-iff-differs', {'kind': p[0], 'msgid': p[1], 'msgstr': p[2]}, v, replay=('harness.c14', 'oracle_plain', list(p)))
     ctx.samples = [{'kind': p[0], 'msgid': p[1], 'msgstr': p[2]} for p in pairs[::max(1, len(pairs) // 8)]][:8] + \
                   [{k: (v if k != 'preimage' else str(v)[:60]) for k, v in shapes[0].items()}]
     return common.finish(
